@@ -38,6 +38,7 @@ type c08Case struct {
 	Calls              []string // sequence over: fill-map, fill-struct, fill-ptr, fill-empty, assign, new, load (last load/new decides the rendering template)
 	Key                string   // "k" or "K"
 	Tagged             bool     // with Key "K": the struct field K carries the JSON tag "k" and is addressed by its Go name
+	NoDataDir          bool     // without DataYml: the filesystem has no data/ directory at all (instead of data files that define nothing)
 }
 
 var c08Re = regexp.MustCompile(`\[(\w+):([^\]]*)\]`)
@@ -54,9 +55,11 @@ func c08Eval(cs c08Case) *Case {
 	}
 	// data files that define nothing (an empty file, a stub with every example commented out, an explicit null document): they must
 	// leave what theme.yml and the other data files define in place
-	put("data/aa-empty.yml", "")
-	put("data/mm-null.yaml", "--- ~\n")
-	put("data/zz-stub.yml", "---\n# "+key+": commented-out\n")
+	if !(cs.NoDataDir && !cs.DataYml) {
+		put("data/aa-empty.yml", "")
+		put("data/mm-null.yaml", "--- ~\n")
+		put("data/zz-stub.yml", "---\n# "+key+": commented-out\n")
+	}
 	body := fmt.Sprintf(`<p>[mustache:{{ %[1]s }}]</p><p :title="%[1]s">[attr]</p><i v-if="%[1]s == 'fm'">[if:fm]</i><i v-if="%[1]s == 'assign'">[if:assign]</i><i v-if="%[1]s == 'fill'">[if:fill]</i><i v-if="%[1]s == 'fill2'">[if:fill2]</i><i v-if="%[1]s == 'datayml'">[if:datayml]</i><i v-if="%[1]s == 'theme'">[if:theme]</i><b v-if="%[1]s">[truthy:yes]</b>`, key)
 	page := body
 	if cs.FM {
@@ -233,6 +236,10 @@ func runC08(r *Run, replay *Case) {
 		c08LayoutChain(r)
 		return
 	}
+	if replay != nil && replay.Input["op"] == "extractfm" {
+		c08FrontMatterSplit(r)
+		return
+	}
 	if replay != nil && replay.Input["stream"] == "explicit-nil" {
 		c08ExplicitNil(r)
 		return
@@ -245,6 +252,7 @@ func runC08(r *Run, replay *Case) {
 	}
 	c08LayoutChain(r)
 	c08ExplicitNil(r)
+	c08FrontMatterSplit(r)
 	r.Res.Rule = "every presence pattern of {front-matter, Fill/Assign layer, data/*.yml, theme.yml} x key addressed by JSON tag / field name x data given as map, struct, pointer-to-struct x " +
 		"every call history <= N over {fill-map, fill-struct, fill-ptr, fill-empty, assign, new, load} before the page is loaded, and histories with up to 2 calls before and up to 2 calls AFTER loading the page, x four read positions ({{ }}, bound attribute, v-if, Get); non-trivial = at least one source defines the key"
 	calls := []string{"fill-map", "fill-struct", "fill-ptr", "fill-empty", "assign", "new", "load", "fill-map-blank", "fill-struct-blank"}
@@ -267,7 +275,7 @@ func runC08(r *Run, replay *Case) {
 	for _, key := range []string{"k", "K", "K+tag"} {
 		for mask := 0; mask < 8; mask++ {
 			for _, s := range seqs {
-				cs := c08Case{Theme: mask&1 != 0, DataYml: mask&2 != 0, FM: mask&4 != 0, Calls: s, Key: key}
+				cs := c08Case{Theme: mask&1 != 0, DataYml: mask&2 != 0, FM: mask&4 != 0, Calls: s, Key: key, NoDataDir: len(s)%2 == 1}
 				if key == "K+tag" {
 					cs.Key, cs.Tagged = "K", true
 					structFill := false
